@@ -226,8 +226,9 @@ func (w *World) Run(h []Op) []string {
 		held := true
 		select {
 		case <-w.KV.entered:
-		case <-done: // the call wrote nothing (e.g. store already Offline)
+		case <-done: // the call wrote nothing (e.g. store already Offline): nothing to hold back, the second call must not be caught instead
 			held = false
+			w.KV.Disarm()
 		}
 		doneB := make(chan struct{})
 		go func() { eb = w.call(o.B); close(doneB) }()
@@ -235,8 +236,13 @@ func (w *World) Run(h []Op) []string {
 			time.Sleep(25 * time.Millisecond) // let the second call get as far as it can
 			close(w.KV.release)
 		}
-		<-done
-		<-doneB
+		for _, ch := range []chan struct{}{done, doneB} {
+			select {
+			case <-ch:
+			case <-time.After(30 * time.Second):
+				panic("life10: a store API call did not return within 30 s in history " + Describe(h))
+			}
+		}
 		w.KV.Disarm()
 		if ea != nil {
 			failed = append(failed, fmt.Sprintf("%s(%d): %v", o.Kind, o.Store, ea))
